@@ -29,3 +29,11 @@ From SV Require Fmt0 Fmt0Proof.
 Theorem C06_L0_normalisation_not_idempotent_refuted : exists p, Fmt0.nprog (Fmt0.nprog p) <> Fmt0.nprog p.
 Proof. exact Fmt0Proof.nprog_not_idempotent_refuted. Qed.
 Print Assumptions C06_L0_normalisation_not_idempotent_refuted.
+(* the same on what format0 applies (parentheses, then call form) ... *)
+Theorem C06_L0_both_passes_not_idempotent_refuted : exists c p, Fmt0.norm0 c (Fmt0.norm0 c p) <> Fmt0.norm0 c p.
+Proof. exact Fmt0Proof.norm0_not_idempotent_refuted. Qed.
+Print Assumptions C06_L0_both_passes_not_idempotent_refuted.
+(* ... while the call-form pass alone is idempotent on every expression, whatever follows it *)
+Theorem C06_L0_call_form_pass_idempotent : forall m e o, Fmt0.cexp m o (Fmt0.cexp m o e) = Fmt0.cexp m o e.
+Proof. exact Fmt0Proof.cexp_idempotent. Qed.
+Print Assumptions C06_L0_call_form_pass_idempotent.
